@@ -104,6 +104,20 @@ func isComparison(e ast.Expr) bool {
 	return false
 }
 
+// tabledBoolTarget: target is a reviewed target of fn whose reviewed formula is a conjunction / disjunction.
+func tabledBoolTarget(fn, target string) bool {
+	for _, e := range formulaTable {
+		if e.fn == fn && e.target == target {
+			for _, x := range e.named {
+				if strings.HasPrefix(x, "= and(") || strings.HasPrefix(x, "= or(") {
+					return true
+				}
+			}
+		}
+	}
+	return false
+}
+
 func hasBoolOp(e ast.Expr) bool {
 	found := false
 	ast.Inspect(e, func(n ast.Node) bool {
@@ -389,6 +403,21 @@ func boolOfBody(info *types.Info, stmts []ast.Stmt, defs map[types.Object]localD
 				parts = append(parts, p)
 			}
 		}
+		// `… and true`, `… or false`: the identity says nothing (guards followed by a plain `return true`)
+		unit := map[string]string{"and": "true", "or": "false"}[name]
+		kept := parts[:0]
+		for _, p := range parts {
+			if p != unit {
+				kept = append(kept, p)
+			}
+		}
+		parts = kept
+		if len(parts) == 0 {
+			return unit
+		}
+		if len(parts) == 1 {
+			return parts[0]
+		}
 		sort.Strings(parts)
 		return name + "(" + strings.Join(parts, "; ") + ")"
 	}
@@ -580,8 +609,10 @@ func formulasIn(pk *packages.Package, fd *ast.FuncDecl, fn string, subst map[typ
 			polySelfText = strings.ReplaceAll(exprText(info, l), " ", "")
 		}
 		defer func() { polySelfObj, polySelfText = nil, "" }()
-		if hasBoolOp(rhs) {
-			if b, ok := info.TypeOf(rhs).Underlying().(*types.Basic); ok && b.Kind() == types.Bool {
+		// (a single comparison is a boolean formula too where the reviewed target was one with more conjuncts: the others
+		// may have become facts of the path, which underAssumptions reads)
+		if hasBoolOp(rhs) || (rhs != nil && isComparison(rhs) && tabledBoolTarget(fn, target)) {
+			if b, ok := info.TypeOf(rhs).Underlying().(*types.Basic); ok && b.Info()&types.IsBoolean != 0 {
 				named := boolForm(info, rhs, nil)
 				polyAbstract = true
 				polyAbsSeen = nil
@@ -591,7 +622,7 @@ func formulasIn(pk *packages.Package, fd *ast.FuncDecl, fn string, subst map[typ
 				polyAbstract = false
 				res := boolForm(info, rhs, fdefs)
 				t := tok.String() + " "
-				out = append(out, formulaSite{fn, target, tok, pos, t + named, t + abs, types.ExprString(rhs), t + res, t + ra, "", assumptionsAt(info, fparents, curStmt, fdefs), "", "", ""})
+				out = append(out, formulaSite{fn, target, tok, pos, t + named, t + abs, types.ExprString(rhs), t + res, t + ra, "", append(assumptionsAt(info, fparents, curStmt, fdefs), assumptionsAt(info, fparents, curStmt, nil)...), "", "", ""})
 				return
 			}
 		}
@@ -1961,6 +1992,37 @@ func ruleFormulaSpec(c *Ctx) {
 			})
 			if fromHelper {
 				verdicts[i].msg = fmt.Sprintf("%s no longer assigns {%s} to %s itself: %s is now what an unexported helper returns, whose formulas this rule did not relate to the reviewed one (%s)", e.fn, strings.Join(e.named, " ; "), e.target, e.target, e.spec)
+				continue
+			}
+		}
+		// … or the variable is handed to an unexported function of the package that the reviewed code did not call
+		// (append(out, subClipped(bal+reward, penalty))): the steps went there as well — undecided
+		if d, ok := formulaDecls[e.fn]; ok && d.fd != nil && d.fd.Body != nil {
+			rev := reviewedTokens(e.fn)
+			toHelper := ""
+			ast.Inspect(d.fd.Body, func(n ast.Node) bool {
+				call, ok := n.(*ast.CallExpr)
+				if !ok || toHelper != "" {
+					return toHelper == ""
+				}
+				g := calleeFunc(d.pk.TypesInfo, call)
+				if g == nil || g.Exported() || g.Pkg() != d.pk.Types || rev[g.Name()+"("] {
+					return true
+				}
+				for _, a := range call.Args {
+					ast.Inspect(a, func(m ast.Node) bool {
+						if id, ok := m.(*ast.Ident); ok && id.Name == e.target {
+							if _, isVar := d.pk.TypesInfo.Uses[id].(*types.Var); isVar {
+								toHelper = g.Name()
+							}
+						}
+						return toHelper == ""
+					})
+				}
+				return true
+			})
+			if toHelper != "" {
+				verdicts[i].msg = fmt.Sprintf("%s no longer assigns {%s} to %s itself: %s is now handed to %s, an unexported helper the reviewed function did not call, whose formulas this rule did not relate to the reviewed one (%s)", e.fn, strings.Join(e.named, " ; "), e.target, e.target, toHelper, e.spec)
 				continue
 			}
 		}
